@@ -303,6 +303,7 @@ func (fr *Frame) unop(x *ssa.UnOp, h Heap) Heap {
 		}
 		t := g.define(fr.prefix+x.Name(), g.sortOf(x.Type()), g.load(h, a))
 		fr.vals[x] = fr.wrap(t, x.Type())
+		fr.guardedLoad(x, h)
 		if f := fr.typeFacts(t, x.Type(), h); f != "true" {
 			fr.assume(f, "type facts of loaded value")
 		}
@@ -435,6 +436,7 @@ func (fr *Frame) lookup(x *ssa.Lookup, h Heap) Heap {
 	if mt, ok := x.X.Type().Underlying().(*types.Map); ok {
 		m := fr.val(x.X).T
 		k := fr.val(x.Index).T
+		fr.guardedUse(x.X, h, false, "map lookup", x)
 		d, v, _ := g.mapArrNames(mt)
 		dom := g.define(fr.prefix+"has_"+x.Name(), "Bool", fmt.Sprintf("(and (not (= %s 0)) (select (select %s %s) %s))", m, g.heapArr(h, d, g.heapSort[d]), m, k))
 		val := g.define(fr.prefix+x.Name(), g.sortOf(mt.Elem()), ite(dom, fmt.Sprintf("(select (select %s %s) %s)", g.heapArr(h, v, g.heapSort[v]), m, k), g.zero(mt.Elem())))
@@ -467,6 +469,7 @@ func (fr *Frame) mapUpdate(x *ssa.MapUpdate, h Heap) Heap {
 		v = g.ptrTerm(vv.A)
 	}
 	fr.oblig("nilmap", "safety", "", fmt.Sprintf("(not (= %s 0))", m), "assignment to entry in nil map", x.Pos())
+	fr.guardedUse(x.Map, h, true, "map update", x)
 	return fr.mapStore(h, mt, m, k, v)
 }
 
@@ -478,6 +481,7 @@ func (fr *Frame) next(x *ssa.Next, h Heap) Heap {
 	}
 	mt := r.X.Type().Underlying().(*types.Map)
 	m := fr.val(r.X).T
+	fr.guardedUse(r.X, h, false, "map iteration step", x)
 	d, va, _ := g.mapArrNames(mt)
 	seenName := fr.seenName(r)
 	seen := g.heapArr(h, seenName, g.heapSort[seenName])
@@ -518,8 +522,25 @@ func (g *Gen) rcvName(el types.Type) (string, string) {
 	return name, srt
 }
 
+// rcvCountName: ghost count of completed receives per channel (a receive from a closed channel counts).
+func (g *Gen) rcvCountName() (string, string) {
+	srt := "(Array Int " + g.sortOf(types.Typ[types.Int]) + ")"
+	g.heapSort["RCVN$"] = srt
+	return "RCVN$", srt
+}
+
 func (fr *Frame) recordReceive(h Heap, ch, v string, el types.Type, cond string) Heap {
 	g := fr.g
+	{
+		cn, cs := g.rcvCountName()
+		ccur := g.heapArr(h, cn, cs)
+		cupd := fmt.Sprintf("(store %s %s %s)", ccur, ch, g.iadd(fmt.Sprintf("(select %s %s)", ccur, ch), g.ilit(1)))
+		if cond != "true" {
+			cupd = ite(cond, cupd, ccur)
+		}
+		h = h.clone()
+		h[cn] = g.define(cn, cs, cupd)
+	}
 	if v == "" {
 		return h
 	}
@@ -545,6 +566,13 @@ func (g *Gen) sndName(el types.Type) (string, string) {
 	srt := "(Array Int (Array " + es + " Bool))"
 	g.heapSort[name] = srt
 	return name, srt
+}
+
+// closedName: ghost count of close(ch) per channel.
+func (g *Gen) closedName() (string, string) {
+	srt := "(Array Int " + g.sortOf(types.Typ[types.Int]) + ")"
+	g.heapSort["CLOSED$"] = srt
+	return "CLOSED$", srt
 }
 
 func (g *Gen) sndCountName() (string, string) {
